@@ -204,7 +204,7 @@ func checkC11(c *Ctx) {
 	for _, f := range c.SemanticFuncs(reach) {
 		for _, e := range c.Effects(f) {
 			if e.Kind == "bank" && e.Op == "MintCoins" && c.mintRole(f, e) == "deposit" {
-				l := p.Leaves(e.Bank.Coins, amountOpt)
+				l := c.EL(e, e.Bank.Coins, amountOpt)
 				af := amountFields(l)
 				ok, extra := subsetOf(af, "SendToHubEvent.Amount")
 				noArith := !l.HasOp("Int.Add") && !l.HasOp("Int.Mul") && !l.HasOp("Int.Sub")
